@@ -334,7 +334,8 @@ class MatchesRegex:
 
     def match(self, value):
         if not re.match(self.pattern, value, self.flags):
-            pattern = self.pattern
+            # A compiled regular expression is accepted as well.
+            pattern = getattr(self.pattern, "pattern", self.pattern)
             if not isinstance(pattern, str):
                 pattern = pattern.decode("latin1")
             pattern = pattern.encode("unicode_escape").decode("ascii")
